@@ -31,6 +31,7 @@ KNOTS = (1, 2, 3, 4)
 def make_registry():
     reg = registry()
     cm.install(reg)
+    _REG["reg"] = reg
     for c in CONTRACTS:
         reg.add_contract(c)
     for c in CALLSITE_ONLY:
@@ -636,8 +637,94 @@ C_PP4 = Contract(f"{DR}:DriftCorrection.preprocess", setup=lambda ctx: pp_setup(
 C_CALCERR = Contract(f"{DR}:DriftCorrection.calculate_error", setup=lambda ctx: NS(self=Obj(DC, {}), mode=0),
                      note="assumed frame: writes only self.error_track (not verified)")
 
-CONTRACTS = [C_PP4, C_PP3, C_PP, C_KDE, C_TC, C_WI, C_TR, C_DI_INIT, C09.C_SUBDIVIDE, C09.C_GENERATE]
-CALLSITE_ONLY = [C_CALCERR]
+
+# ------------------------------------------------------------------------------------------------
+# align_translation: bookkeeping around the (opaque) cross-correlation -- knots move by the measured shift minus the mean
+# ------------------------------------------------------------------------------------------------
+
+
+def at_setup(ctx):
+    N = STACK[-1]
+    for n in STACK[:-1]:
+        if ctx.branch(ctx.fresh(f"stack_of_{n}", "bool").t):
+            N = n
+            break
+    K = fork_knots(ctx)
+    H, W = ctx.fresh("H", "int"), ctx.fresh("W", "int")
+    S1, S2 = ctx.fresh("S1", "int"), ctx.fresh("S2", "int")
+    images = [ImageStub((H, W), ctx.fresh_arr(f"image{a}", (H, W), "real")) for a in range(N)]
+    interps = []
+    for a in range(N):
+        f = dict(input_shape=(H, W), output_shape=(S1, S2), scan_fast=ctx.fresh_arr(f"scan_fast{a}", (2,), "real"), scan_slow=ctx.fresh_arr(f"scan_slow{a}", (2,), "real"),
+                 pad_value=ctx.fresh(f"pad_value{a}", "real"), kde_sigma=ctx.fresh("kde_sigma", "real"))
+        f.update(derived_fields(H, W))
+        interps.append(Obj(DI, f))
+    o = Obj(DC, dict(_images=images, shape=(N, S1, S2), knots=[ctx.fresh_arr(f"knots{a}", (2, H, K), "real") for a in range(N)], interpolator=interps,
+                     images_warped=StackStub(ctx.fresh_arr("images_warped", (N, S1, S2), "real")), weights_warped=StackStub(ctx.fresh_arr("weights_warped", (N, S1, S2), "real"))))
+    return NS(self=o, upsample_factor=ctx.fresh("upsample_factor", "int"), min_image_shift=None, max_image_shift=ctx.fresh("max_image_shift", "real"),
+              show_merged=False, show_images=False, show_knots=True, N=N, K=K, H=H, W=W, case=f"N={N},K={K}")
+
+
+def at_requires(s):
+    out = [("upsample_factor>=1", lift(s.upsample_factor) >= 1)]
+    for j, it in enumerate(s.self.fields["interpolator"]):
+        out += [(f"Inv(interpolator{j}):" + a, b) for a, b in interp_inv(it)]
+    return out
+
+
+def at_snapshot(s):
+    return NS(knots=[k.copy() for k in s.self.fields["knots"]])
+
+
+def at_ensures(s):
+    o = s.self
+    N, K, H, W = s.N, s.K, s.H, s.W
+    shifts = s.ctx.ghost.get("measured_shifts", [])
+    out = [("returns-self", s.result is o), ("one-cross-correlation-per-image-after-the-first", len(shifts) == N - 1)]
+    if len(shifts) != N - 1:
+        return out
+    sh = [(z3.RealVal(0), z3.RealVal(0))] + [(rterm(a.fn(z3.IntVal(0))), rterm(a.fn(z3.IntVal(1)))) for a in shifts]  # image 0 is the reference
+    r, k = I("r"), I("k")
+    inr = AND(r >= 0, r < lift(H), k >= 0, k < K)
+    allzero = AND(*[c == 0 for p in sh for c in p])
+    knots = o.fields["knots"]
+    for a in range(N):
+        kn, old = knots[a], s.old.knots[a]
+        ok = isinstance(kn, SymArr) and kn.ndim == 3
+        out.append((f"image{a}:knots-keep-their-shape", ok and all(V.dims_equal(p, q) for p, q in zip(kn.shape, old.shape))))
+        if not ok:
+            continue
+        for d in (0, 1):
+            mean = sum([p[d] for p in sh[1:]], sh[0][d]) / N
+            out.append((f"image{a}:knots[{d}]-move-by-the-measured-shift-minus-the-mean-shift",
+                        forall([r, k], implies(inr, rterm(kn.fn(z3.IntVal(d), r, k)) == rterm(old.fn(z3.IntVal(d), r, k)) + sh[a][d] - mean))))
+            out.append((f"image{a}:zero-measured-shifts=>knots[{d}]-do-not-move",
+                        implies(allzero, forall([r, k], implies(inr, rterm(kn.fn(z3.IntVal(d), r, k)) == rterm(old.fn(z3.IntVal(d), r, k)))))))
+        ww = o.fields.get("weights_warped")
+        tot = slab_total(ww.array, a) if isinstance(ww, StackStub) else None
+        out.append((f"image{a}:re-warped-weight-map-sums-to-the-number-of-image-pixels", False if tot is None else tot == R_(lift(H) * lift(W))))
+    return out
+
+
+C_AT = Contract(f"{DR}:DriftCorrection.align_translation", setup=at_setup, requires=at_requires, ensures=at_ensures, snapshot=at_snapshot,
+                inline=[f"{DR}:DriftCorrection.images"])
+
+
+def ccs_result(ctx, s):
+    sh = ctx.fresh_arr("measured_shift", (2,), "real")
+    ctx.ghost.setdefault("measured_shifts", []).append(sh)
+    if s.get("return_shifted_image", False):
+        return (sh, _REG["reg"].OpaqueArray())
+    return sh
+
+
+# opaque collaborator (NOT verified, outside deductive reach): FFT cross-correlation; only "returns a pair of reals (and an array)" is used
+C_CCS = Contract(f"{IU}:cross_correlation_shift", setup=lambda ctx: NS(im_ref=None, im=None), result=ccs_result,
+                 note="opaque: returns some (row, col) shift [and the shifted image]; its accuracy is the bounded fixed-point check")
+_REG = {}
+
+CONTRACTS = [C_PP4, C_PP3, C_PP, C_AT, C_KDE, C_TC, C_WI, C_TR, C_DI_INIT, C09.C_SUBDIVIDE, C09.C_GENERATE]
+CALLSITE_ONLY = [C_CALCERR, C_CCS]
 
 # ------------------------------------------------------------------------------------------------
 # property-level lemmas (from the contract statements alone)
@@ -942,6 +1029,48 @@ def fam_weights(tier="quick", seed=0):
                                K=1 + i % 4, seed=seed + i)
 
 
+def rt_warp(inp):
+    """warp_image on the real DriftInterpolator: pixel (r,c) of the image is deposited at (xa[r,c], ya[r,c]) of
+    transform_coordinates(knots) (weighted centroid of a single bright pixel, sigma = 0) and the weights sum to H*W."""
+    import numpy as np
+    from quantem.imaging.drift import DriftInterpolator
+
+    H, W, K = inp["H"], inp["W"], inp.get("K", 2)
+    rows, cols = inp.get("rows", H + 5), inp.get("cols", W + 8)
+    rng = np.random.default_rng(inp.get("seed", 0))
+    th = rng.uniform(0, 2 * np.pi)
+    fast, slow = np.array([np.sin(-th), np.cos(-th)]), np.array([np.cos(-th), -np.sin(-th)])
+    it = DriftInterpolator(input_shape=(H, W), output_shape=(rows, cols), scan_fast=fast, scan_slow=slow, pad_value=0.0, kde_sigma=0.0)
+    r = np.arange(H)[:, None] - (H - 1) / 2
+    cc = (np.array([0.0]) if K == 1 else np.arange(K) / (K - 1) * (W - 1)) - (W - 1) / 2
+    knots = np.stack([(rows - 1) / 2 + cc[None, :] * fast[0] + r * slow[0], (cols - 1) / 2 + cc[None, :] * fast[1] + r * slow[1]], axis=0)
+    xa, ya = it.transform_coordinates(knots)
+    notes = []
+    for (r0, c0) in {(H // 2, max(W // 2 - 1, 0)), (min(H - 1, H // 2 + 1), W // 2)}:
+        delta = np.zeros((H, W))
+        delta[r0, c0] = 1.0
+        img, wts = it.warp_image(delta, knots)
+        ws = float(np.asarray(wts, float).sum())
+        if abs(ws - H * W) > 2e-4 * H * W + 1e-3:
+            notes.append(f"weights sum to {ws:.6g}, not {H * W}")
+        m = np.asarray(img, float) * np.minimum(np.asarray(wts, float), 1e3)
+        tx, ty = float(xa[r0, c0]), float(ya[r0, c0])
+        if m.sum() > 0 and 0 <= tx <= rows - 2 and 0 <= ty <= cols - 2:
+            gx = float((m.sum(axis=1) * np.arange(rows)).sum() / m.sum())
+            gy = float((m.sum(axis=0) * np.arange(cols)).sum() / m.sum())
+            if abs(gx - tx) > 0.02 or abs(gy - ty) > 0.02:
+                notes.append(f"pixel ({r0},{c0}) deposited at ({gx:.3f},{gy:.3f}) but transform_coordinates says ({tx:.3f},{ty:.3f})")
+    return dict(violated=bool(notes), observed="; ".join(notes[:3]) or "ok", expected="pixel (r,c) deposited at (xa[r,c], ya[r,c]); sum(weights)=H*W")
+
+
+def fam_warp(tier="quick", seed=0):
+    i = 0
+    for (H, W) in [(2, 2), (3, 6), (7, 4), (8, 8)]:
+        for K in KNOTS:
+            i += 1
+            yield dict(H=H, W=W, K=K, seed=seed + i)
+
+
 def rt_align(inp):
     """a stack of identical images acquired with the same scan direction is a fixed point of translation alignment:
     relative shifts zero, knots unchanged (numerical; cross-correlation is outside deductive reach)."""
@@ -1070,7 +1199,7 @@ def _guard(rt):
     return wrapped
 
 
-rt_geometry, rt_rows, rt_weights, rt_align = _guard(rt_geometry), _guard(rt_rows), _guard(rt_weights), _guard(rt_align)
+rt_geometry, rt_rows, rt_weights, rt_align, rt_warp = _guard(rt_geometry), _guard(rt_rows), _guard(rt_weights), _guard(rt_align), _guard(rt_warp)
 
 
 def _knots_from_model(ev):
@@ -1106,8 +1235,8 @@ def conc_weights(ev):
 
 for _c in (C_TR, C_TC, C_DI_INIT):
     _c.concretize, _c.rt, _c.rt_family = conc_rows, rt_rows, fam_rows
-for _c in (C_KDE, C_WI):
-    _c.concretize, _c.rt, _c.rt_family = conc_weights, rt_weights, fam_weights
+C_KDE.concretize, C_KDE.rt, C_KDE.rt_family = conc_weights, rt_weights, fam_weights
+C_WI.concretize, C_WI.rt, C_WI.rt_family = conc_rows, rt_warp, fam_warp
 for _c in (C_PP, C_PP3, C_PP4):
     _c.concretize, _c.rt, _c.rt_family = conc_geometry, rt_geometry, fam_geometry
 
@@ -1117,6 +1246,7 @@ BOUNDED = [
     Bounded.from_rt("transform_rows/transform_coordinates on arbitrary straight knot lines", rt_rows, fam_rows, "8 shapes incl. 1xW / Hx1, 1..4 knots, random lines", klass=klass_rows),
     Bounded.from_rt("preprocess geometry and weight totals end to end", rt_geometry, fam_geometry,
                     "6 shapes (10 thorough) x 6 angles (11) x 3 pad fractions (5) x 1..4 knots, stacks of 2..4", klass=klass_geometry),
+    Bounded.from_rt("warp_image deposits pixel (r,c) at the coordinates of transform_coordinates", rt_warp, fam_warp, "4 shapes x 1..4 knots, random angle, 2 pixels each"),
     Bounded.from_rt("bilinear_kde / warp_image weight totals for arbitrary coordinates", rt_weights, fam_weights,
                     "4 point grids x 4 canvases x 3 sigmas x 3 batch sizes, coordinates up to 6 canvas sizes outside"),
     Bounded.from_rt("identical stack is a fixed point of align_translation", rt_align, fam_align,
